@@ -196,6 +196,72 @@ def check_seq(values):
     return st, viols
 
 
+SORT_ALPHABETS = {
+    # mutually comparable in Python, exactly: a conversion to one machine type (float64 / int64) loses the order
+    'mixed-numeric': [0.5, 2 ** 53, 2 ** 53 + 1, 2 ** 63, -1, True, -2 ** 63 - 1],
+    'strings': ['a', 'B', 'aa', '', 'a\x00'],
+    'tuples': [(0, 'x'), (0,), (1, -1), (), (0, 'x', 0)],
+}
+GROUP_ALPHABETS = {
+    # partially ordered ids (sets: < is the subset relation), ids that are equal across types (1 == 1.0 == True)
+    'sets': [frozenset({1}), frozenset({2}), frozenset({1, 2}), frozenset()],
+    'equal-across-types': [1, 1.0, True, 2, '1'],
+}
+
+
+def check_exotic(args):
+    kind, name, idxs = args
+    import lazy_dataset
+    st = collections.Counter()
+    viols = []
+    n = len(idxs)
+
+    def bad(key, what, **kw):
+        viols.append(common.Violation('C18', key, f'{kind} alphabet {name} sequence {list(idxs)} {kw}: {what}',
+                                      {'engine': 'exotic', 'kind': kind, 'name': name, 'idxs': list(idxs), **kw}).to_json())
+    if kind == 'sort':
+        alpha = SORT_ALPHABETS[name]
+        vals = [alpha[i] for i in idxs]
+        exs = {KEYS[i]: {'v': v, 'id': KEYS[i], 'p': Payload(i)} for i, v in enumerate(vals)}
+        for reverse in (False, True):
+            for backing in ('raw', 'list'):
+                st['states'] += 1
+                ds = lazy_dataset.core.DictDataset(exs) if backing == 'raw' else \
+                    lazy_dataset.new(list(exs.values()), immutable_warranty='copy')
+                try:
+                    got = list(ds.sort(sort_value, reverse=reverse))
+                except Exception as e:      # noqa: BLE001
+                    bad(f'sort-raises/{type(e).__name__}', str(e)[:80], reverse=reverse, backing=backing)
+                    continue
+                st['transitions'] += n + 1
+                ids = [ex['id'] for ex in got]
+                sk = [exs[i]['v'] for i in ids]
+                if sorted(ids) != sorted(exs):
+                    bad('sort-not-a-permutation', f'ids {ids}', reverse=reverse, backing=backing)
+                elif not all((a >= b) if reverse else (a <= b) for a, b in zip(sk, sk[1:])):
+                    bad('sort-order' + ('-reverse' if reverse else ''), f'sort keys {sk}', reverse=reverse, backing=backing)
+        return st, viols
+    alpha = GROUP_ALPHABETS[name]
+    exs = {KEYS[i]: {'g': a, 'id': KEYS[i], 'p': Payload(i)} for i, a in enumerate(idxs)}
+    for backing in ('raw', 'list'):
+        st['states'] += 1
+        ds = lazy_dataset.core.DictDataset(exs) if backing == 'raw' else \
+            lazy_dataset.new(list(exs.values()), immutable_warranty='copy')
+        try:
+            groups = ds.groupby(lambda ex: alpha[ex['g']])
+            got = {g: [ex['id'] for ex in d] for g, d in groups.items()}
+        except Exception as e:      # noqa: BLE001
+            bad(f'groupby-raises/{type(e).__name__}', str(e)[:80], backing=backing)
+            continue
+        st['transitions'] += n + 1
+        want = {}
+        for i, a in enumerate(idxs):
+            want.setdefault(alpha[a], []).append(KEYS[i])
+        if got != want:
+            bad('groupby-partition', f'groups {got}, expected {want}', backing=backing)
+    return st, viols
+
+
 def sequences(max_len):
     for n in range(0, max_len + 1):
         yield from itertools.product(range(3), repeat=n)
@@ -209,12 +275,22 @@ def run(tier):
     for st, viols in common.pmap(check_seq, seqs, chunksize=4):
         total.update(st)
         res.violations.extend(common.Violation.from_json(v) for v in viols)
-    res.violations.sort(key=lambda v: (len(v.replay.get('values', v.replay.get('assign', []))), v.key))
+    xlen = 3 if tier == 'quick' else 5
+    xtasks = [(kind, name, idxs) for kind, table in (('sort', SORT_ALPHABETS), ('groupby', GROUP_ALPHABETS))
+              for name, alpha in table.items() for m in range(1, xlen + 1)
+              for idxs in itertools.product(range(len(alpha)), repeat=m)]
+    for st, viols in common.pmap(check_exotic, xtasks, chunksize=16):
+        total.update(st)
+        res.violations.extend(common.Violation.from_json(v) for v in viols)
+    res.coverage['exotic_value_sequences'] = len(xtasks)
+    res.violations.sort(key=lambda v: (len(v.replay.get('values', v.replay.get('assign', v.replay.get('idxs', [])))), v.key))
     res.coverage.update(
         states=total['states'], transitions=total['transitions'], traces_validated_against_impl=total['states'],
         exhaustive=True, sequences=len(seqs),
         rule=f'all sequences over sort values {{0,1,2}} of length 0..{max_len} x 3 storages x 4 upstream pipelines x reverse x '
-             f'key_fn/key-less x sorted/custom sort_fn; groupby with all assignments of 3 group ids of different types',
+             f'key_fn/key-less x sorted/custom sort_fn; groupby with all assignments of 3 group ids of different types; all sequences to '
+             f'length {xlen} over sort values that need exact comparison (huge ints next to floats, strings, tuples) and group ids '
+             f'that are partially ordered or equal across types',
         samples=[{'values': [2, 0, 2, 1], 'reverse': True, 'key_fn': True}, {'values': [1, 1], 'key_fn': False},
                  {'groupby_assign': [0, 1, 0, 2]}])
     res.assumptions = ['order among ties is not judged', 'oracle: permutation / monotone sort keys / key attachment; no reference sort']
@@ -224,6 +300,11 @@ def run(tier):
 def replay(data):
     r = data['replay']
     res = common.Result()
+    if r.get('engine') == 'exotic':
+        st, viols = check_exotic((r['kind'], r['name'], tuple(r['idxs'])))
+        res.violations = [common.Violation.from_json(v) for v in viols]
+        res.coverage.update(states=st['states'], transitions=st['transitions'])
+        return res
     vals = r.get('values', r.get('assign', []))
     st, viols = check_seq(tuple(vals))
     res.violations = [common.Violation.from_json(v) for v in viols]
